@@ -493,7 +493,10 @@ class VizierServicer(vizier_service_pb2_grpc.VizierServiceServicer):
       study_resource = StudyResource.from_name(request.parent)
       trial.name = (study_resource.trial_resource(trial.id)).name
 
-      if trial.state != study_pb2.Trial.State.SUCCEEDED:
+      if trial.state not in (
+          study_pb2.Trial.State.SUCCEEDED,
+          study_pb2.Trial.State.INFEASIBLE,
+      ):
         trial.state = study_pb2.Trial.State.REQUESTED
       trial.ClearField('client_id')
 
